@@ -431,9 +431,48 @@ func checkC06(c *fw.Ctx) {
 			}
 			// unfiltered: inside the range loop over needed, no extra condition
 			var extra []string
-			for _, fact := range fw.DeepFacts(di.Fr, st.Block()) {
+			facts := fw.DeepFacts(di.Fr, st.Block())
+			// `if len(needed) > 0 { for s := range needed {...} }`: a non-emptiness test of the very
+			// collection that is ranged over filters nothing
+			vacuous := map[string]bool{}
+			for _, fact := range facts {
 				t := strings.TrimPrefix(fact, "!")
-				if containsAll(t, "param:userIDForSender == nil") || strings.HasPrefix(t, "next(range(") {
+				if !strings.HasPrefix(t, "next(range(") {
+					continue
+				}
+				depth, end := 0, -1
+				for i := len("next(range"); i < len(t); i++ {
+					if t[i] == '(' {
+						depth++
+					} else if t[i] == ')' {
+						depth--
+						if depth == 0 {
+							end = i
+							break
+						}
+					}
+				}
+				if end > 0 {
+					y := t[len("next(range("):end]
+					for _, v := range []string{"(builtin.len(" + y + ") > 0)", "!(builtin.len(" + y + ") == 0)", "(builtin.len(" + y + ") != 0)", "(builtin.len(" + y + ") >= 1)", "!(builtin.len(" + y + ") < 1)", "!(builtin.len(" + y + ") <= 0)"} {
+						vacuous[v] = true
+					}
+				}
+			}
+			// (also when the requests are stamped from a template built before that loop)
+			for _, b := range st.Parent().Blocks {
+				for _, ins := range b.Instrs {
+					if rg, isR := ins.(*ssa.Range); isR {
+						y := fw.Sig(rg.X)
+						for _, v := range []string{"(builtin.len(" + y + ") > 0)", "!(builtin.len(" + y + ") == 0)", "(builtin.len(" + y + ") != 0)", "(builtin.len(" + y + ") >= 1)", "!(builtin.len(" + y + ") < 1)", "!(builtin.len(" + y + ") <= 0)"} {
+							vacuous[v] = true
+						}
+					}
+				}
+			}
+			for _, fact := range facts {
+				t := strings.TrimPrefix(fact, "!")
+				if containsAll(t, "param:userIDForSender == nil") || strings.HasPrefix(t, "next(range(") || vacuous[fact] {
 					continue
 				}
 				// the machinery of other loop forms: an index loop over a list, a range over an
